@@ -1027,6 +1027,9 @@ pub fn run(plan: &Plan, c: &CommPlan) -> FamOut {
                             for (name, got, pp) in [("stdout", &o, m.pout), ("stderr", &e, m.perr)] {
                                 if let Some(g) = got {
                                     let want = String::from_utf8_lossy(&m.hist(pp)).into_owned();
+                                    if want.ends_with('\u{fffd}') && want.len() > 3 && !want[..want.len() - 3].contains('\u{fffd}') {
+                                        sim().k.probe("text_ends_inside_a_character");
+                                    }
                                     if *g != want {
                                         violate("bytes_mismatch", format!("bytes_mismatch/stream={}/kind=text", name), format!("communicate(): {} text differs from the lossy decoding of the bytes written ({} vs {} chars)", name, g.len(), want.len()));
                                     }
